@@ -3,7 +3,7 @@
 n=$1; src=/var/tmp/agents/$n/verif
 cd $src || exit 1
 stage=/var/tmp/stage.$n; rm -rf $stage; mkdir -p $stage   # never rsync --compare-dest=X into X: it deletes identical files
-rsync -a --out-format='%n' --compare-dest=/verif/ --exclude .lake --exclude __pycache__ --exclude replays --exclude evidence \
+rsync -ac --out-format='%n' --compare-dest=/verif/ --exclude .lake --exclude __pycache__ --exclude replays --exclude evidence \
   --exclude wip --exclude 'lean/Pixman/Gen' --exclude MANIFEST.json --exclude known_findings.json --exclude lean/Main.lean \
   --exclude lean/Driver.lean --exclude lean/Pixman.lean --exclude 'seeded' --exclude tools/confirm_seed.sh --exclude tools/mkmanifest.py \
   --exclude tools/run_seed.py --exclude tools/seed_pipeline.sh --exclude tools/integrate.sh --exclude tools/mkseedtask.py --exclude lean/.lock --exclude 'engine' --exclude DESIGN.md --exclude '*.o' \
